@@ -48,3 +48,15 @@ package values
 //@ func (*Floats64Value).Clear
 //@   requires recv: ia != nil
 //@   ensures cleared: len(deref(ia)) == 0
+
+// --- capability detection ---------------------------------------------------------------------------------------
+// userBoolFlag is the answer a user-supplied BoolValued gives; assumed to be a constant of the value (A-cb).
+//@ pure func userBoolFlag(v any) bool
+//@ pure func boolFlag(v any) bool = isType(v, "*BoolValue") || userBoolFlag(v)
+//@ pure func isBool(v any) bool = implements(v, "BoolValued") && boolFlag(v)
+
+//@ func BoolValued.IsBoolFlag
+//@   ensures def: result == boolFlag(this)
+
+//@ func IsBool
+//@   ensures def: result == isBool(v)
